@@ -59,16 +59,16 @@ Step == PreFlight \/ Scan
 ConnectExact(d, o) == \A k \in 1..Len(o.attempts) : o.attempts[k].acc <=> MayConnect(d, o.attempts[k])
 DeliveredWellTyped(d, o) == \A k \in 1..Len(o.delivered) : LET v == o.delivered[k] IN
                               HasIn(d, v.m, v.p) /\ v.dt = InPort(d, v.m, v.p).dt /\ v.integ >= InPort(d, v.m, v.p).integ
-OutputsChecked(d, o) == /\ (~o.error => \A k \in 1..Len(o.calls) : GoodHandler(Mod(d, o.calls[k].m).handler))
+OutputsChecked(d, o) == /\ ((~o.error /\ ~o.hung) => \A k \in 1..Len(o.calls) : GoodHandler(Mod(d, o.calls[k].m).handler))
                         /\ \A k \in 1..Len(o.delivered) : o.delivered[k].src # "external" => GoodHandler(Mod(d, o.delivered[k].src).handler)
 CallIdx(o, m) == {k \in 1..Len(o.calls) : o.calls[k].m = m}
 OncePerModule(d, o) == /\ \A m \in Names(d) : Cardinality(CallIdx(o, m)) <= 1
-                       /\ (~o.error => /\ Len(o.order) = Len(d.mods) /\ SetOf(o.order) = Names(d)
+                       /\ ((~o.error /\ ~o.hung) => /\ Len(o.order) = Len(d.mods) /\ SetOf(o.order) = Names(d)
                                        /\ \A m \in Names(d) : Mod(d, m).handler # "none" => Cardinality(CallIdx(o, m)) = 1)
 PosIn(s, x) == CHOOSE k \in 1..Len(s) : s[k] = x
 AfterFeeders(d, o) == /\ \A k \in 1..Len(o.calls) : \A f \in Feeders(d, o.calls[k].m) : \E j \in 1..(k - 1) : o.calls[j].m = f
-                      /\ (~o.error => \A m \in Names(d) : \A f \in Feeders(d, m) : PosIn(o.order, f) < PosIn(o.order, m))
-UnschedulableRaises(d, o) == /\ (~Schedulable(d) => o.error)
+                      /\ ((~o.error /\ ~o.hung) => \A m \in Names(d) : \A f \in Feeders(d, m) : PosIn(o.order, f) < PosIn(o.order, m))
+UnschedulableRaises(d, o) == /\ (~Schedulable(d) => o.error) /\ ~o.hung          \* (hung: the run did not return within the harness's allowance)
                              /\ \A k \in 1..Len(o.calls) : {x.port : x \in SetOf(Mod(d, o.calls[k].m).ins)} \subseteq SetOf(o.calls[k].ports)
 CapsUnion(d, o) == SetOf(o.caps) = UNION {SetOf(d.mods[k].caps) : k \in 1..Len(d.mods)}
 ===============================================================================
